@@ -34,6 +34,7 @@ func runC08(c *core.Ctx) {
 	h.configActionProgress("C08.7 membership-effect", "effect")
 	h.nextActionTable("C08.8 next-action-table")
 	h.configSetters("C08.9 config-setters")
+	h.labelCoherence("C08.10 label-coherence")
 	c.Clause("C08.6 configurations rebuilt on restart: newest configuration entry above the snapshot is Latest, next is Committed, snapshot label as fallback")
 	h.openStorageRebuild("C08.6 restart-rebuild")
 }
